@@ -42,6 +42,7 @@ type st =
   | SStr of str * sstr
   | SMap of slotmap * smap
   | SFlat of slotmap * fmap
+  | SOpt of n option * n option
 
 let parse_vop name args =
   let a k = n_of_int (int_of_string (List.nth args k)) in
@@ -82,6 +83,14 @@ let parse_fop name args =
   | "insert" -> FInsert (a 0, a 1) | "get" -> FGet (a 0) | "getref" -> FGetRef (a 0) | "remove" -> FRemove (a 0)
   | "contains" -> FContains (a 0) | "keys" -> FKeys | "len" -> FLen | "drop" -> FDrop
   | _ -> failwith ("unknown flatmap op " ^ name)
+let parse_oop name args =
+  let a k = n_of_int (int_of_string (List.nth args k)) in
+  match name with
+  | "replace" -> ORReplace (a 0) | "take" -> ORTake | "takeif" -> ORTakeIf (parse_list (List.nth args 0))
+  | "issome" -> ORIsSome | "isnone" -> ORIsNone | "get" -> ORGet | "tooption" -> ORToOption
+  | "unwrap" -> ORUnwrap | "expect" -> ORExpect | "unwrapor" -> ORUnwrapOr (a 0)
+  | "unwraporelse" -> ORUnwrapOrElse (a 0) | "map" -> ORMap (a 0) | "drop" -> ORDrop
+  | _ -> failwith ("unknown option op " ^ name)
 (* "<res>|l<list>" with the list sorted (by the extracted sortN): order-insensitive comparison *)
 let sort_drops s =
   match String.index_opt s '|' with
@@ -131,6 +140,7 @@ let () =
          | "vec" -> st := SVec (vec_new c, svec_new c)
          | "slotmap" -> st := SMap (sm_new c, smap_new c)
          | "flatmap" -> st := SFlat (sm_new c, fmap_new c)
+         | "option" -> st := SOpt (None, None)
          | "str" ->
            let fl = (match flavour with "heap" -> FPoly | "fixed" -> FStatic | "reloc" -> FReloc | _ -> failwith "flavour") in
            st := SStr (str_new fl c, sstr_new fl c)
@@ -141,7 +151,7 @@ let () =
         let (args, obs) = split [] rest in
         let impl = match obs with o :: _ -> o | [] -> "?" in
         Buffer.add_string cur_case (name ^ " " ^ String.concat " " args ^ ";");
-        let k = (match !st with SQueue _ -> "queue." | SVec _ -> "vec." | SStr _ -> "str." | SMap _ -> "slotmap." | SFlat _ -> "flatmap." | SNone -> "?.") ^ name in
+        let k = (match !st with SQueue _ -> "queue." | SVec _ -> "vec." | SStr _ -> "str." | SMap _ -> "slotmap." | SFlat _ -> "flatmap." | SOpt _ -> "option." | SNone -> "?.") ^ name in
         Hashtbl.replace opcount k (1 + try Hashtbl.find opcount k with Not_found -> 0);
         if not !dead then begin
           match !st with
@@ -207,6 +217,11 @@ let () =
                 (show_od impl (ob, d), show_od impl (sob, sd),
                  (match o with FInsert _ -> ob = OUnit | _ -> false),
                  SFlat (m', sp'))
+              | SOpt (m, sp) ->
+                let o = parse_oop name args in
+                let ((m', ob), d) = ro_step m o in
+                let ((sp', sob), sd) = so_step sp o in
+                (show_od impl (ob, d), show_od impl (sob, sd), (match o with ORReplace _ -> true | _ -> false), SOpt (m', sp'))
               | _ -> failwith "unreachable") in
             if om <> impl then begin
               incr mm_model;
